@@ -507,6 +507,24 @@ def device_case(acc, A, vec, Diff):
                         A, B, None, True, ignore_device=True)
     # device is part of the identity otherwise
     eval_both(acc, A, B, True, Diff)
+    # ignore_device together with a real change: a changed device id must not hide (or invent) anything else -
+    # the diff must be the one of the same two trees without the device change (identity = inode alone)
+    for idx in range(len(A.tree)):
+        for what in (4, 5):   # mtime, size
+            t2 = list(A.tree)
+            e = list(t2[idx])
+            e[what] ^= 1
+            t2[idx] = tuple(e)
+            Bsame = Prep(tuple(t2), True)
+            Bdev = Prep(with_devs(tuple(t2), vec), True)
+            for X, Y, Ysame in ((A, Bdev, Bsame), (Bdev, A, None)):
+                L = lists_of(Diff(X.snap, Y.snap, ignore_device=True))
+                acc.evals += 1
+                ref = reference(A, Bsame) if Ysame is not None else reference(Bsame, A)
+                for clause, msg in compare(A if Ysame is not None else Bsame, Bsame if Ysame is not None else A, L, ref):
+                    acc.problem("ignore-device+" + clause, msg + f" (device vector {vec} with ignore_device=True, "
+                                f"entry {A.tree[idx][0]} {'mtime' if what == 4 else 'size'} changed)",
+                                X, Y, None, True, ignore_device=True)
 
 
 def _job_device(args):
